@@ -29,7 +29,7 @@ func TestRAC_C14(t *testing.T) {
 		maxLeaves, maxBlocks = 6, 3
 	}
 	rng := rand.New(rand.NewSource(res.Seed + 1414))
-	cfgs := []mapCfg{{false, 63}, {false, 0}, {false, 3}}
+	cfgs := []mapCfg{{Full: false, TotalRows: 63}, {Full: false, TotalRows: 0}, {Full: false, TotalRows: 3}}
 	n := 0
 	enumHistories(maxLeaves, maxBlocks, func(h racHistory) {
 		w, ok := replayHistory(res, h, nil, false)
